@@ -22,6 +22,14 @@ whose number of passes depends on data, a library call no rule models) makes an 
 comparison goes through `verdict` / `_unmodelled`, a route whose Pade table is such a value counts as not evaluated.  The scaling power
 of the order-13 route is decided on numbers: ceil / floor / round / int and log2 of constants are evaluated exactly, and the norm
 estimates of five regimes are placed so that theta_13, the rounding direction, the clamp at 0 and min(eta_3, eta_4) each show.
+
+Pass 5 (c07_switch.py; round-4 seed J): getEPQ is evaluated with concrete options -- B None / given, half False / True, order 0 / 1 -- and per
+outcome of its norm test (before, B and half were symbols, i.e. an input matrix and an option nothing decides: the regime B None was never
+evaluated).  Typestate: a result computed by getEPQ1 / expmint with the second integral is returned only on a path that has established
+h ||A||_1 <= theta_9 (k h ||A||_1 <op> c is read as the test on h ||A||_1; a comparison with +infinity establishes nothing), one computed by
+a power-series routine only behind some bound on the norm; the routine reached receives the options as given (defaults completed from its own
+signature, half immaterial with an input matrix) and its E, P, Q are handed on unchanged; getEPQ1 written out in place is compared with what
+getEPQ1 returns under the same evaluation (equal: fine; different: undecided).
 """
 from __future__ import annotations
 
@@ -2157,7 +2165,7 @@ EXPLANATION = ("Static: every Pade coefficient table in expmint.py (17 tables) i
                "exp(x), sum x^k/(k+1)! and sum x^k/((k+2)k!); expmint/_expm_SS are evaluated in regimes just below and above each published theta_m: "
                "the table used, the order told to _geti2, the scaling power (five placements of the norm estimates around theta_13 2^k) and the squaring loop (trip count, I <- I + I.E before E <- E.E) are values "
                "of that evaluation; getEPQ1/getEPQ_pow build P,Q identically in every B/half regime; the power-series loops produce the documented partial "
-               "sums; getEPQ switches at theta_9, which bounds the route with a Pade table for the second integral; getEPQ2's augmented matrix "
+               "sums; getEPQ switches at theta_9, which bounds the route with a Pade table for the second integral, and does so in every option regime (B None / given, half, order 0 / 1: a getEPQ1 / expmint result with the second integral is returned only on a path that found h ||A||_1 <= theta_9, and the routine reached receives the options unchanged); getEPQ2's augmented matrix "
                "(blocks, floating dtype, partition of the result), also with an input matrix and half=True (the option is ignored, as in the sibling variants); "
                "SSModel.c2d/d2c per method: hold-equivalent / bilinear transfer function, round trip in both directions (d2c(c2d(s)) = s, "
                "c2d(d2c(z)) = z evaluated on the objects returned, so a 'continuous' result that keeps its step is seen), recorded method / prewarp, getlti, "
@@ -2166,7 +2174,7 @@ EXPLANATION = ("Static: every Pade coefficient table in expmint.py (17 tables) i
 MANIFEST = {
     "text": "Partial claim decided statically: (R1) all 17 Pade tables are exact diagonal approximants (order conditions to O(x^(2N+1)) in exact rationals), "
             "with 2^-s scaling applied uniformly; (R2) regimes just below/above each published theta_m select the order-m table and tell _geti2 that order, "
-            "the order-13 scaling power s = max(ceil(log2(min(max(d6,d8), max(d8,d10)) / 4.25)), 0) + ell on five placements of the estimates, getEPQ's switch constant and the route it guards; "
+            "the order-13 scaling power s = max(ceil(log2(min(max(d6,d8), max(d8,d10)) / 4.25)), 0) + ell on five placements of the estimates, getEPQ's switch constant and the route it guards, per option regime (B None / given x half x order) and per outcome of the norm test: no path returns a getEPQ1 / expmint(geti2) result without having established h ||A||_1 <= theta_9 (typestate), options passed on unchanged; "
             "(R3) squaring loop runs s times with I <- I + I.E before E <- E.E, E/I/I2 assembled from the table of the route, _solve_P_Q_2 per structure; "
             "(R4) getEPQ1 == getEPQ_pow in P,Q construction for B given / half / both (half ignored when B is given), power-series partial sums, "
             "direct I2 formula (written with I or with A^-1 (E - 1)); "
